@@ -4,6 +4,7 @@ import math
 import numpy as np
 import sympy
 
+from ..gen import circuit_siblings as CS
 from ..gen import circuits as GC
 from ..ref import linalg as L
 
@@ -16,26 +17,42 @@ RULE = (
     "(list/tuple/set/range collections, unordered, with duplicates; 0-3 parameter gate factories; rows as "
     "lists and numpy rows) and add_ancilla_register (0-4 ancillas); a case is non-trivial when the circuit has "
     ">= 2 operations incl. a multi-qubit or wrapped gate (inverse/controlled/ancilla) or the builder gets >= 3 "
-    "distinct qubits with distinct parameter rows; distinct = distinct canonical case strings"
+    "distinct qubits with distinct parameter rows; distinct = distinct canonical case strings. "
+    "siblings = circuits whose operations are combinations out of small per-circuit pools of innermost gates x "
+    "parameter values (equal, near-equal, negated, shifted by a period, other number type, permuted) x wrapper "
+    "shapes (controls, dagger, integer power, exp), incl. the same gate object on other / reordered qubits "
+    "(rv.gen.circuit_siblings), so that DIFFERENT gates of one circuit coincide in name, parameter tuple, arity, "
+    "wrapped gate or text - each through inverse, double inverse, controlled(k) and the ancilla builder; "
+    "history = one circuit object (and equal copies, same-named custom gates with other matrices) through "
+    "several controlled(k) / inverse / builder calls, with its public operations list edited in place between "
+    "calls; the builders also get sibling parameter rows (shared prefixes, permutations, near-equal, repeated, "
+    "sympy numbers and symbols), the empty collection, numpy arrays / dict views / frozensets of qubits, numpy "
+    "integer counts and control indices, and several near-identical calls in one case; wide = registers of 8, 9, "
+    "16, 17, 32, 33, 64, 65 qubits with a few gates at the extreme / threshold positions through controlled(k) "
+    "(k at 0, n, next to the gates, at the thresholds), inverse and the ancilla builder; builder qubit indices "
+    "and layer widths reach 65 as well"
 )
 ASSUMPTIONS = [
     "each gate's own matrix is taken as given; circuit unitaries come from rv.ref.linalg.embed",
     "c + c.inverse() = identity is demanded only when every gate matrix is numerically unitary (exp wrappers "
     "and arbitrary custom matrices are not); otherwise only the stated equivalent U(inverse) = U(c)^dagger",
-    "controlled(k) is compared on the common register max(result width, n+1, k+1) after identity padding "
-    "(the library legitimately drops idle trailing qubits)",
+    "two circuits are compared on the qubits that either of them touches (order-preserving relabelling, at most 8 "
+    "qubits): on every other qubit both act as the identity, whatever the register width; for controlled(k) these "
+    "are the control, the shifted qubits of the source and the qubits of the result (the library legitimately "
+    "drops idle trailing qubits, so no width is demanded of the controlled circuit)",
     "tolerance 1e-8 relative",
 ]
 DECIDING = ["Circuit.inverse", "Circuit.controlled", "create_layer_of_gates", "apply_gate_to_qubits",
             "add_ancilla_register", "inverse-identity", "double-inverse"]
-BUDGET = {"quick": (4, 25, 150), "thorough": (16, 200, 100000)}
+BUDGET = {"quick": (4, 25, 200), "thorough": (16, 200, 100000)}
 CASE_TIMEOUT = {"quick": 15, "thorough": 40}
 K1 = "K1-dagger-of-fractional-power"
 TOL = 1e-8
 
 
 def classes(tier):
-    return ["inverse_unitary", "inverse_general", "inverse_k1", "controlled", "layer", "apply_gate", "ancilla"]
+    return ["inverse_unitary", "inverse_general", "inverse_k1", "controlled", "layer", "apply_gate", "ancilla",
+            "siblings", "history", "wide"]
 
 
 def _all_gate_ops(c):
@@ -44,7 +61,10 @@ def _all_gate_ops(c):
     return all(isinstance(op, GateOperation) for op in c.operations)
 
 
-def _in_domain(c, wmax=8):
+MAXQ = 8  # reference matrices are built on at most this many qubits
+
+
+def _in_domain(c, wmax=4096):
     try:
         n = c.n_qubits
         if not isinstance(n, (int, np.integer)) or n > wmax or not _all_gate_ops(c):
@@ -62,12 +82,49 @@ def _in_domain(c, wmax=8):
     return True
 
 
+_MAT = {}
+
+
+def _gate_np(gate):
+    """the gate's own matrix (taken as given, see ASSUMPTIONS) as an ndarray; converted once per gate OBJECT and
+    case - gates are immutable, the entry keeps the object alive so its id cannot be reused"""
+    e = _MAT.get(id(gate))
+    if e is not None and e[0] is gate:
+        return e[1]
+    M = GC.gate_np(gate)
+    M.setflags(write=False)
+    _MAT[id(gate)] = (gate, M)
+    return M
+
+
+def _used(*circuits):
+    return {int(q) for c in circuits for op in c.operations for q in op.qubit_indices}
+
+
+def _relabel(qubits):
+    """order-preserving map of the qubits that matter onto 0..m-1: a circuit acts as the identity on every qubit
+    none of its operations touches, so two circuits are compared on the qubits either of them touches - which
+    keeps registers of any width (9, 17, 33, 65 ... qubits) within reach of dense reference matrices"""
+    S = sorted(qubits)
+    return {q: i for i, q in enumerate(S)}, len(S)
+
+
+def _unitary_on(circuit, rel, m, shift=None):
+    """as rv.gen.circuits.ref_unitary (product in program order of every gate's own matrix embedded by bit
+    arithmetic) on the relabelled register; shift: optional map applied to the qubit indices first"""
+    U = np.eye(2**m, dtype=complex)
+    for op in circuit.operations:
+        qs = tuple(rel[shift(int(q)) if shift else int(q)] for q in op.qubit_indices)
+        U = L.embed(_gate_np(op.gate), qs, m) @ U
+    return U
+
+
 def _tol(ref):
     return TOL * max(1.0, float(np.abs(ref).max()) if ref.size else 1.0)
 
 
 def _unitary_ops(c):
-    return all(L.is_unitary(GC.gate_np(op.gate), 1e-8) for op in c.operations)
+    return all(L.is_unitary(_gate_np(op.gate), 1e-8) for op in c.operations)
 
 
 # ----------------------------------------------------------------------------- monitors
@@ -86,16 +143,20 @@ def _post_inverse(mon, call):
     if r.n_qubits != c.n_qubits:
         mon.violation("inverse-width", f"{c!r}.inverse() has width {r.n_qubits}")
         return
-    try:
-        U = GC.ref_unitary(c)
-    except Exception:
-        mon.out_of_domain(name)
-        return
     if not _in_domain(r):
         mon.violation("inverse-structure", f"{c!r}.inverse() = {r!r} is not a circuit of gate operations on valid qubits")
         return
+    rel, m = _relabel(_used(c, r))
+    if m > MAXQ:
+        mon.out_of_domain(name)
+        return
     try:
-        V = GC.ref_unitary(r)
+        U = _unitary_on(c, rel, m)
+    except Exception:
+        mon.out_of_domain(name)
+        return
+    try:
+        V = _unitary_on(r, rel, m)
     except Exception as e:
         from .C07 import _sympy_internal
 
@@ -115,7 +176,7 @@ def _post_inverse(mon, call):
         bad_all_k1 = True
         any_bad = False
         for op, rop in zip(reversed(ops), rops):
-            Mo, Mr = GC.gate_np(op.gate), GC.gate_np(rop.gate)
+            Mo, Mr = _gate_np(op.gate), _gate_np(rop.gate)
             if tuple(op.qubit_indices) != tuple(rop.qubit_indices):
                 bad_all_k1 = False
                 break
@@ -133,19 +194,16 @@ def _post_controlled(mon, call):
     name = "Circuit.controlled"
     c = call.args[0]
     k = call.args[1] if len(call.args) > 1 else call.kwargs.get("control_index")
-    if not _in_domain(c, 7) or not isinstance(k, (int, np.integer)) or k < 0:
+    if not _in_domain(c) or not isinstance(k, (int, np.integer)) or isinstance(k, bool) or k < 0:
         mon.out_of_domain(name)
         return
-    n = c.n_qubits
+    n = int(c.n_qubits)
+    k = int(k)
     if call.exc is not None:
         mon.violation("controlled-raises", f"{c!r}.controlled({k}): {call.exc!r}")
         return
     r = call.result
-    W = max(r.n_qubits, n + 1, k + 1)
-    if W > 8:
-        mon.out_of_domain(name)
-        return
-    if not _in_domain(r, 8):
+    if not _in_domain(r):
         # the source circuit is well-formed, so a result with duplicated / missing qubit indices or
         # non-gate operations is a malformed controlled circuit
         mon.violation("controlled-structure", f"{c!r}.controlled({k}) = {r!r} is not a well-formed gate circuit")
@@ -153,16 +211,28 @@ def _post_controlled(mon, call):
     if len(r.operations) != len(c.operations):
         mon.violation("controlled-structure", f"{c!r}.controlled({k}) has {len(r.operations)} operations")
         return
-    U = GC.ref_unitary(c)
-    mapped = tuple(i if i < k else i + 1 for i in range(n))
-    # expected action on W qubits: identity when qubit k is 0, U on the mapped qubits when it is 1
-    exp = L.embed(L.controlled(U, 1), (k,) + mapped, W) if n > 0 else np.eye(2**W, dtype=complex)
-    got = GC.ref_unitary(r, n=W)
+
+    def shift(q):
+        return q if q < k else q + 1
+
+    # compared on the control, the shifted qubits the source touches and whatever the result touches; on every
+    # other qubit both sides are the identity (the library legitimately drops idle trailing qubits)
+    rel, m = _relabel({k} | {shift(q) for q in _used(c)} | _used(r))
+    if m > MAXQ:
+        mon.out_of_domain(name)
+        return
+    U = _unitary_on(c, rel, m, shift)  # the original circuit on the shifted qubits; never touches qubit k
+    bit = (np.arange(2**m) >> (m - 1 - rel[k])) & 1
+    # expected action: identity where the control bit is 0, U where it is 1
+    exp = np.diag((1 - bit).astype(complex)) + np.diag(bit.astype(complex)) @ U
+    got = _unitary_on(r, rel, m)
     if L.maxdiff(got, exp) > _tol(exp) * 10:
         mon.violation("controlled-action", f"{c!r}.controlled({k}) = {r!r}: max diff from (control=0: identity, control=1: "
                                            f"circuit on shifted qubits) {L.maxdiff(got, exp):.3e}")
     else:
         mon.ok(name)
+        if n > MAXQ - 1:
+            mon.note("controlled:register-wider-than-%d" % (MAXQ - 1))
 
 
 def _gate_for(factory, row):
@@ -331,10 +401,10 @@ def _post_ancilla(mon, call):
     if _snapshot_ops(c)[0] != old_n or len(c.operations) != len(old_ops):
         mon.violation("ancilla-mutates-input", f"input circuit changed to {c!r}")
         return
-    if _in_domain(c, 7) and _in_domain(r, 8):
-        U = GC.ref_unitary(c)
-        V = GC.ref_unitary(r)
-        exp = L.pad(U, old_n, old_n + k)
+    rel, m = _relabel(_used(c, r)) if _in_domain(c) and _in_domain(r) else (None, MAXQ + 1)
+    if m <= MAXQ:
+        exp = _unitary_on(c, rel, m)
+        V = _unitary_on(r, rel, m)  # the ancillas are among the relabelled qubits as soon as a gate sits on them
         if L.maxdiff(V, exp) > _tol(exp):
             mon.violation("ancilla-action", f"add_ancilla_register({c!r}, {k}) = {r!r} acts differently on the original qubits")
             return
@@ -390,40 +460,172 @@ def _rows(rng, nprng, k, npar, as_numpy):
     return rows
 
 
+def _exp_never_returns(gate):
+    """environment: sympy 1.9 does not finish Matrix.exp() of PHASE(<float>) (and of its dagger); such a case can
+    only time out, so it is drawn again"""
+    g, under_exp = gate, False
+    while hasattr(g, "wrapped_gate"):
+        under_exp = under_exp or type(g).__name__ == "Exponential"
+        g = g.wrapped_gate
+    return under_exp and str(getattr(g, "name", "")) == "PHASE"
+
+
+def _rows_text(params):
+    if params is None:
+        return "None"
+    try:
+        return str(np.asarray(params).tolist())
+    except Exception:
+        return str([list(r) for r in params])
+
+
+def _builder_args(rng, nprng, k, factory, npar, fname):
+    """(k, factory, name, parameters, kind of rows) for a builder request over k (distinct) qubits"""
+    if npar == 0:
+        return (k, factory, fname, None, "none")
+    r = rng.random()
+    if r < 0.4:
+        rows, kind = _rows(rng, nprng, k, npar, True), "numpy"
+    elif r < 0.65:
+        rows, kind = _rows(rng, nprng, k, npar, False), "list"
+    else:
+        symbolic = rng.random() < 0.4
+        rows = CS.sibling_rows(rng, k, npar, symbolic=symbolic)
+        kind = "sibling-symbolic" if symbolic else "sibling"
+        if not symbolic and rng.random() < 0.3:
+            rows, kind = np.array(rows, dtype=float).reshape(k, npar), "sibling-numpy"
+        elif rng.random() < 0.3:
+            rows, kind = tuple(tuple(row) for row in rows), kind + "-tuples"
+    return (k, factory, fname, rows, kind)
+
+
+def _sibling_call(rng, nprng, tab, call, npar):
+    """a layer request that a coarse memo key (width, factory name, number of rows, first row ...) confuses with
+    ``call``"""
+    n, factory, fname, rows, kind = call
+    r = rng.random()
+    if r < 0.25 or (n == 0 and npar):
+        return _builder_args(rng, nprng, max(0, n + rng.choice([-1, 1])) if n else 1, factory, npar, fname)
+    if npar == 0 or r < 0.5:
+        # another factory with the same number of parameters, the very same rows
+        for _ in range(8):
+            f2, np2, fn2 = _factory(rng, tab)
+            if np2 == npar and fn2 != fname:
+                return (n, f2, fn2, rows, kind)
+        return (n, factory, fname, rows, kind)
+    # same factory and width, rows reordered / changed in ONE entry
+    old = [list(row) for row in (rows.tolist() if isinstance(rows, np.ndarray) else rows)]
+    new = [list(row) for row in old]
+    if rng.random() < 0.5 and len(new) >= 2:
+        new.reverse()
+    if new == old:
+        i, jx = rng.randrange(len(new)), rng.randrange(npar)
+        new[i][jx] = round(rng.uniform(-3, 3), 4) if rng.random() < 0.5 or not isinstance(new[i][jx], float) \
+            else new[i][jx] + 1e-4
+    return (n, factory, fname, new, "sibling")
+
+
+def _qubit_collection(rng):
+    """(collection, form): list / tuple / set / frozenset / range / numpy array / dict / dict view, unordered, with
+    duplicates where the container can hold them, now and then empty"""
+    k = rng.randint(1, 6) if rng.random() < 0.93 else 0
+    pool = list(range(0, 14)) if rng.random() < 0.85 else [0, 1, 7, 8, 9, 15, 16, 17, 31, 32, 33, 63, 64, 65]
+    qs = rng.sample(pool, k)
+    dup = k > 0 and rng.random() < 0.3
+    if dup:
+        qs = qs + [rng.choice(qs) for _ in range(rng.randint(1, 2))]
+        rng.shuffle(qs)
+        form = rng.choice(["list", "list", "tuple", "nparray"])
+    else:
+        form = rng.choice(["list", "tuple", "set", "range", "nparray", "frozenset", "dictkeys", "dict"])
+    if form == "tuple":
+        return tuple(qs), form
+    if form == "set":
+        return set(qs), form
+    if form == "frozenset":
+        return frozenset(qs), form
+    if form == "range":
+        a = rng.randint(0, 6)
+        return range(a, a + k), form
+    if form == "nparray":
+        return np.array(qs, dtype=rng.choice([np.int64, np.int32, np.uint8])), form
+    if form == "dictkeys":
+        return dict.fromkeys(qs, "x").keys(), form
+    if form == "dict":
+        return dict.fromkeys(qs, "x"), form
+    return list(qs), form
+
+
+def _key_collision(ops):
+    """do two different gates of the circuit share (name, parameter tuple)? (tally only)"""
+    seen = {}
+    for op in ops:
+        try:
+            key = (op.gate.name, tuple(op.gate.params))
+            if key in seen and seen[key] != repr(op.gate):
+                return True
+            seen.setdefault(key, repr(op.gate))
+        except Exception:
+            pass
+    return False
+
+
+def _step_text(st):
+    if st[0] == "apply":
+        return f"apply {st[3]} to {st[1]} rows={st[4]}"
+    if st[0] == "other":
+        return "same operations, other definition of the custom gate: [" + ", ".join(map(str, st[1])) + "]"
+    return " ".join(str(x) for x in st)
+
+
+def _inverse_checks(ctx, c, unitary_only):
+    """c.inverse() (judged by the hook), the double inverse and, for unitary circuits, c + c.inverse() = identity"""
+    inv = c.inverse()
+    inv2 = inv.inverse()
+    if not (_in_domain(inv) and _in_domain(inv2)):
+        return  # the hook has reported the malformed result
+    rel, m = _relabel(_used(c, inv, inv2))
+    if m > MAXQ:
+        return
+    U = _unitary_on(c, rel, m)
+    try:
+        U2 = _unitary_on(inv2, rel, m)
+    except Exception:
+        return
+    ctx.check("double-inverse", inv2.n_qubits == c.n_qubits and L.maxdiff(U2, U) <= _tol(U) * 100,
+              lambda: f"{c!r}.inverse().inverse() = {inv2!r} acts differently (max diff {L.maxdiff(U2, U):.3e})")
+    if unitary_only and _unitary_ops(c):
+        s = c + inv
+        ok = s.n_qubits == c.n_qubits and _in_domain(s) and _used(s) <= set(rel)
+        ok = ok and L.maxdiff(_unitary_on(s, rel, m), np.eye(2**m)) <= 1e-7
+        if ok and c.n_qubits <= 6:
+            try:
+                lib = np.asarray(s.to_unitary(), dtype=complex)
+                ok = L.maxdiff(lib, np.eye(2**c.n_qubits)) <= 1e-7
+            except Exception as e:
+                ok = False
+        ctx.check("inverse-identity", ok, lambda: f"{c!r} + inverse is not the identity on {c.n_qubits} qubits")
+
+
 def run_case(ctx):
     from orquestra.quantum import circuits as C
     from orquestra.quantum.circuits import Circuit, add_ancilla_register, apply_gate_to_qubits, create_layer_of_gates
 
     rng, nprng = ctx.rng, ctx.nprng
     cls = ctx.cls
+    _MAT.clear()
     wmax = 5 if ctx.quick else 7
     tab = GC.builtin_table()
     if cls in ("inverse_unitary", "inverse_general"):
         n = rng.choice([1, 2, 2, 3, 3, 4, wmax])
         unitary_only = cls == "inverse_unitary"
-        c, desc, info = GC.rand_circuit(rng, nprng, n, rng.choice([0, 1, 2, 3, 5, 8]), unitary_only=unitary_only,
-                                        allow_u3=rng.random() < 0.1, wrap=0.45)
+        for _ in range(20):
+            c, desc, info = GC.rand_circuit(rng, nprng, n, rng.choice([0, 1, 2, 3, 5, 8]), unitary_only=unitary_only,
+                                            allow_u3=rng.random() < 0.1, wrap=0.45)
+            if not any(_exp_never_returns(op.gate) for op in c.operations):
+                break
         ctx.describe(f"{cls} {desc}", _interesting(c))
-        inv = c.inverse()
-        inv2 = inv.inverse()
-        U = GC.ref_unitary(c)
-        try:
-            U2 = GC.ref_unitary(inv2)
-        except Exception:
-            return
-        ctx.check("double-inverse", inv2.n_qubits == c.n_qubits and L.maxdiff(U2, U) <= _tol(U) * 100,
-                  lambda: f"{c!r}.inverse().inverse() = {inv2!r} acts differently (max diff {L.maxdiff(U2, U):.3e})")
-        if unitary_only and _unitary_ops(c):
-            s = c + inv
-            I = GC.ref_unitary(s)
-            ok = s.n_qubits == c.n_qubits and L.maxdiff(I, np.eye(2**c.n_qubits)) <= 1e-7
-            if ok and c.n_qubits <= 6:
-                try:
-                    lib = np.asarray(s.to_unitary(), dtype=complex)
-                    ok = L.maxdiff(lib, np.eye(2**c.n_qubits)) <= 1e-7
-                except Exception as e:
-                    ok = False
-            ctx.check("inverse-identity", ok, lambda: f"{c!r} + inverse is not the identity on {c.n_qubits} qubits")
+        _inverse_checks(ctx, c, unitary_only)
         return
     if cls == "inverse_k1":
         n = rng.randint(1, 3)
@@ -447,55 +649,50 @@ def run_case(ctx):
             c, desc, info = GC.rand_circuit(rng, nprng, n, rng.choice([0, 1, 2, 3, 5]), allow_u3=rng.random() < 0.1,
                                             wrap=0.3, max_gate_nq=2)
         k = rng.randint(0, c.n_qubits) if rng.random() < 0.9 else c.n_qubits + rng.randint(1, 2)
-        ctx.describe(f"controlled k={k} {desc}", _interesting(c))
-        c.controlled(k)
+        np_k = rng.random() < 0.1
+        ctx.describe(f"controlled k={'np.int64 ' if np_k else ''}{k} {desc}", _interesting(c))
+        c.controlled(np.int64(k) if np_k else k)
         return
     if cls == "layer":
-        n = rng.choice([0, 1, 2, 3, 5, 8, 12, 17])
+        n = rng.choice([0, 1, 2, 3, 5, 8, 12, 17]) if rng.random() < 0.9 else rng.choice([9, 16, 32, 33, 64, 65])
         factory, npar, fname = _factory(rng, tab)
-        as_np = rng.random() < 0.4
-        params = None if npar == 0 else _rows(rng, nprng, n, npar, as_np)
-        ctx.describe(f"layer n={n} {fname} rows={'numpy' if as_np else 'list'} {None if params is None else np.asarray(params).tolist()}",
-                     n >= 3 and npar >= 1)
-        if npar == 0:
-            create_layer_of_gates(n, factory)
-        else:
-            create_layer_of_gates(n, factory, params)
+        calls = [_builder_args(rng, nprng, n, factory, npar, fname)]
+        if rng.random() < 0.3:
+            # near-identical requests in one process: same width and factory with other rows, another factory with
+            # the same rows, a neighbouring width
+            for _ in range(rng.randint(1, 2)):
+                calls.append(_sibling_call(rng, nprng, tab, calls[-1], npar))
+        np_n = rng.random() < 0.1
+        ctx.describe("layer " + " | ".join(f"n={'np.int64 ' if np_n else ''}{m} {fn} rows={kind} {_rows_text(pr)}"
+                                           for m, f, fn, pr, kind in calls),
+                     calls[0][0] >= 3 and npar >= 1)
+        for m, f, fn, pr, kind in calls:
+            m = np.int64(m) if np_n else m
+            if pr is None:
+                create_layer_of_gates(m, f)
+            else:
+                create_layer_of_gates(m, f, pr)
         return
     if cls == "apply_gate":
         n = rng.randint(1, 5)
         c, desc, info = GC.rand_circuit(rng, nprng, n, rng.randint(0, 4), allow_u3=False, wrap=0.2)
-        factory, npar, fname = _factory(rng, tab)
-        k = rng.randint(1, 6)
-        pool = list(range(0, 14))
-        qs = rng.sample(pool, k)
-        dup = rng.random() < 0.3
-        if dup:
-            qs = qs + [rng.choice(qs) for _ in range(rng.randint(1, 2))]
-            rng.shuffle(qs)
-        form = rng.choice(["list", "tuple", "set", "range"]) if not dup else rng.choice(["list", "tuple"])
-        if form == "tuple":
-            coll = tuple(qs)
-        elif form == "set":
-            coll = set(qs)
-        elif form == "range":
-            a = rng.randint(0, 6)
-            coll = range(a, a + k)
-        else:
-            coll = list(qs)
-        distinct = len(set(coll))
-        as_np = rng.random() < 0.4
-        params = None if npar == 0 else _rows(rng, nprng, distinct, npar, as_np)
-        ctx.describe(f"apply_gate {fname} to {form}{list(coll)} rows={None if params is None else np.asarray(params).tolist()} on {desc}",
-                     distinct >= 3 and npar >= 1)
+        plan = []
+        for _ in range(1 if rng.random() < 0.7 else rng.randint(2, 3)):
+            factory, npar, fname = _factory(rng, tab)
+            coll, form = _qubit_collection(rng)
+            distinct = len(set(int(q) for q in coll))
+            m, f, fn, pr, kind = _builder_args(rng, nprng, distinct, factory, npar, fname)
+            plan.append((coll, form, f, fn, pr, kind, distinct, npar))
+        ctx.describe("apply_gate " + " | ".join(f"{fn} to {form}{[int(q) for q in coll]} rows={kind} {_rows_text(pr)}"
+                                                for coll, form, f, fn, pr, kind, d, npar in plan) + f" on {desc}",
+                     plan[0][6] >= 3 and plan[0][7] >= 1)
         import warnings
 
         with warnings.catch_warnings():
             warnings.simplefilter("ignore")
-            if npar == 0:
-                apply_gate_to_qubits(c, coll, factory)
-            else:
-                apply_gate_to_qubits(c, coll, factory, params)
+            # every further request is applied to the circuit the previous one returned
+            for coll, form, f, fn, pr, kind, d, npar in plan:
+                c = apply_gate_to_qubits(c, coll, f) if pr is None else apply_gate_to_qubits(c, coll, f, pr)
         return
     if cls == "ancilla":
         n = rng.choice([0, 1, 2, 3, 4])
@@ -504,7 +701,135 @@ def run_case(ctx):
         else:
             c, desc, info = GC.rand_circuit(rng, nprng, n, rng.choice([0, 1, 3, 5]), allow_u3=False, wrap=0.3)
         k = rng.randint(0, 4)
-        ctx.describe(f"ancilla +{k} {desc}", _interesting(c) and k >= 1)
-        add_ancilla_register(c, k)
+        np_k = rng.random() < 0.1
+        ctx.describe(f"ancilla +{'np.int64 ' if np_k else ''}{k} {desc}", _interesting(c) and k >= 1)
+        add_ancilla_register(c, np.int64(k) if np_k else k)
+        return
+    if cls == "siblings":
+        # one circuit whose DIFFERENT gates coincide in name / parameter tuple / arity / wrapped gate / text
+        # (rv.gen.circuit_siblings) through every construction that derives something per gate
+        n = rng.choice([2, 3, 3, 4])
+        unitary_only = rng.random() < 0.85
+        ops, pools = CS.sibling_ops(rng, nprng, n, rng.randint(2, 6) if unitary_only else rng.randint(2, 3),
+                                    unitary_only=unitary_only)
+        c = Circuit(ops, n_qubits=n) if rng.random() < 0.6 else Circuit(ops)
+        k = rng.randint(0, c.n_qubits)
+        j = rng.randint(1, 3) if rng.random() < 0.3 else None
+        ctx.describe(f"siblings k={k} ancillas={j} {c!r}", len(ops) >= 2 and len({repr(op.gate) for op in ops}) >= 2)
+        ctx.mon.note("siblings:name+params-collision" if _key_collision(ops) else "siblings:no-collision")
+        c.controlled(k)
+        _inverse_checks(ctx, c, unitary_only)
+        if j is not None:
+            add_ancilla_register(c, j)
+        return
+    if cls == "history":
+        # ONE circuit object (and equal copies / a same-named custom gate with another matrix) through several
+        # calls; between calls its public operations list is edited in place.  Every call is judged by the hooks.
+        n = rng.choice([2, 3, 3])
+        cname = "Hist%d" % rng.randint(0, 99)
+        defs = [GC.numeric_custom_def(rng, nprng, 1, cname) for _ in range(2)] if rng.random() < 0.3 else []
+        ops, pools = CS.sibling_ops(rng, nprng, n, rng.randint(2, 4), custom_defs=defs[:1])
+        cur = list(ops)
+        plan = []
+        last_k = rng.randint(0, n)
+        for _ in range(rng.randint(4, 7)):
+            r = rng.random()
+            if r < 0.3:
+                last_k = rng.choice([last_k, rng.randint(0, n), rng.randint(0, n)])
+                plan.append(("controlled", last_k))
+            elif r < 0.45:
+                plan.append(("inverse",))
+            elif r < 0.52:
+                plan.append(("ancilla", rng.randint(1, 2)))
+            elif r < 0.6:
+                f, npar, fname = _factory(rng, tab)
+                qs = rng.sample(range(n + 2), rng.randint(1, 3))
+                plan.append(("apply", qs, f, fname, None if npar == 0 else CS.sibling_rows(rng, len(qs), npar)))
+            elif r < 0.7:
+                plan.append(("copy",))
+            elif r < 0.76 and defs:
+                # the same operations with the OTHER definition behind the custom gate's name
+                cur = [(defs[1]()(*op.qubit_indices) if op.gate == defs[0]() else op) for op in cur]
+                plan.append(("other", list(cur)))
+            else:
+                e = rng.choice(["set", "set", "append", "pop", "reverse", "swap"])
+                if e == "set" and cur:
+                    i = rng.randrange(len(cur))
+                    op = CS.sibling_of_op(rng, cur[i], pools, n)
+                    cur[i] = op
+                    plan.append(("set", i, op))
+                elif e == "append" or not cur:
+                    op = CS.sibling_ops(rng, nprng, n, 1, pools=pools)[0][0]
+                    cur.append(op)
+                    plan.append(("append", op))
+                elif e == "pop":
+                    cur.pop()
+                    plan.append(("pop",))
+                elif e == "swap" and len(cur) >= 2:
+                    a, b = rng.sample(range(len(cur)), 2)
+                    cur[a], cur[b] = cur[b], cur[a]
+                    plan.append(("swap", a, b))
+                else:
+                    cur.reverse()
+                    plan.append(("reverse",))
+        if not any(st[0] in ("controlled", "inverse") for st in plan[1:]):
+            plan.append(("controlled", last_k))
+        c = Circuit(ops, n_qubits=n)
+        ctx.describe(f"history {c!r} :: " + "; ".join(_step_text(st) for st in plan), True)
+        import warnings
+
+        for st in plan:
+            kind = st[0]
+            if kind == "controlled":
+                c.controlled(st[1])
+            elif kind == "inverse":
+                c.inverse()
+            elif kind == "ancilla":
+                add_ancilla_register(c, st[1])
+            elif kind == "apply":
+                with warnings.catch_warnings():
+                    warnings.simplefilter("ignore")
+                    if st[4] is None:
+                        apply_gate_to_qubits(c, st[1], st[2])
+                    else:
+                        apply_gate_to_qubits(c, st[1], st[2], st[4])
+            elif kind == "copy":
+                c = Circuit(list(c.operations), n_qubits=n)
+            elif kind == "other":
+                c = Circuit(st[1], n_qubits=n)
+            elif kind == "set":
+                c.operations[st[1]] = st[2]
+            elif kind == "append":
+                c.operations.append(st[1])
+            elif kind == "pop":
+                c.operations.pop()
+            elif kind == "swap":
+                lst = c.operations
+                lst[st[1]], lst[st[2]] = lst[st[2]], lst[st[1]]
+            elif kind == "reverse":
+                c.operations.reverse()
+        return
+    if cls == "wide":
+        # registers beyond the widths dense matrices allow: a few small gates at the extreme / threshold positions;
+        # the monitors compare on the touched qubits only
+        n = rng.choice([8, 9, 9, 16, 17, 32, 33, 64, 65])
+        marks = sorted({0, 1, 7, 8, 9, 15, 16, 17, 31, 32, 33, 63, 64, n - 2, n - 1} & set(range(n)))
+        ops, descs = [], []
+        for _ in range(rng.randint(1, 3)):
+            g, d = GC.rand_gate(rng, nprng, 2, wrap=0.3, custom=0.1, allow_u3=False)
+            qs = [rng.choice(marks) if rng.random() < 0.7 else rng.randrange(n) for _ in range(g.num_qubits)]
+            if len(set(qs)) < len(qs):
+                qs = list(GC.rand_qubits(rng, g.num_qubits, n))
+            ops.append(g(*qs))
+            descs.append(f"{d}@{','.join(map(str, qs))}")
+        c = Circuit(ops, n_qubits=n) if rng.random() < 0.7 else Circuit(ops)
+        used = sorted({q for op in ops for q in op.qubit_indices})
+        near = [q + e for q in used for e in (-1, 0, 1) if 0 <= q + e <= c.n_qubits]
+        k = rng.choice([0, c.n_qubits, c.n_qubits - 1, rng.choice(near), rng.choice(near), rng.randint(0, c.n_qubits)])
+        j = rng.randint(0, 2)
+        ctx.describe(f"wide n={c.n_qubits} k={k} +{j} [" + "; ".join(descs) + "]", True)
+        c.controlled(k)
+        _inverse_checks(ctx, c, True)
+        add_ancilla_register(c, j)
         return
     raise ValueError(cls)
